@@ -1,0 +1,21 @@
+//go:build verif
+
+package valuecanon
+
+// Machine-checked contracts (comment-only; compiled only with -tags verif).
+//
+// Canonical value equality (property C08: equality and IN matching follow ONE rule on both query routes),
+// integer and boolean cases, for every pair of values: two integers are equal exactly when they denote the
+// same mathematical integer, whatever their signedness; a numeric value never equals a non-numeric one; same-kind
+// booleans / signed / unsigned values compare by value. (String and float cases are not under contract: strings
+// are compared by Go's ==, floats need IEEE reasoning the engine does not model.)
+//@ func Equal(a, b) (eq)
+//@   property C08
+//@   nopanic
+//@   ensures[signed_signed] a.Kind == KindInt64 && b.Kind == KindInt64 ==> (eq <==> a.I == b.I)
+//@   ensures[unsigned_unsigned] a.Kind == KindUint64 && b.Kind == KindUint64 ==> (eq <==> a.U == b.U)
+//@   ensures[signed_unsigned_same_integer] a.Kind == KindInt64 && b.Kind == KindUint64 ==> (eq <==> a.I == b.U)
+//@   ensures[unsigned_signed_same_integer] a.Kind == KindUint64 && b.Kind == KindInt64 ==> (eq <==> a.U == b.I)
+//@   ensures[bools] a.Kind == KindBool && b.Kind == KindBool ==> (eq <==> (a.B <==> b.B))
+//@   ensures[nulls] a.Kind == KindNull && b.Kind == KindNull ==> eq
+//@   ensures[numeric_never_equals_non_numeric] (a.Kind == KindInt64 || a.Kind == KindUint64) && (b.Kind == KindBool || b.Kind == KindString || b.Kind == KindNull) ==> !eq
